@@ -147,26 +147,26 @@ func genC20(r *sim.Rand, tier string) *sim.Program {
 // c20World holds the shared objects of a run; a second instance built from
 // the same seed provides the private fresh objects of the sequential oracle.
 type c20World struct {
-	seed      []byte
-	sm2Priv   *sm2.PrivateKey
-	sm2Peer   *sm2.PrivateKey
-	sm2Sig    []byte // made with an independent object
-	sm2Ct     []byte
-	ecdhPriv  *ecdh.PrivateKey
-	ecdhEph   *ecdh.PrivateKey
-	ecdhPeer  *ecdh.PrivateKey
-	ecdhPeerE *ecdh.PrivateKey
-	signMaster *sm9.SignMasterPrivateKey
-	signUser   *sm9.SignPrivateKey
-	encMaster  *sm9.EncryptMasterPrivateKey
-	encUser    *sm9.EncryptPrivateKey
-	sm9Sig     []byte
-	sm9Ct      []byte
-	sm9Wrapped []byte
-	block      cipher.Block
-	gcm        cipher.AEAD
+	seed          []byte
+	sm2Priv       *sm2.PrivateKey
+	sm2Peer       *sm2.PrivateKey
+	sm2Sig        []byte // made with an independent object
+	sm2Ct         []byte
+	ecdhPriv      *ecdh.PrivateKey
+	ecdhEph       *ecdh.PrivateKey
+	ecdhPeer      *ecdh.PrivateKey
+	ecdhPeerE     *ecdh.PrivateKey
+	signMaster    *sm9.SignMasterPrivateKey
+	signUser      *sm9.SignPrivateKey
+	encMaster     *sm9.EncryptMasterPrivateKey
+	encUser       *sm9.EncryptPrivateKey
+	sm9Sig        []byte
+	sm9Ct         []byte
+	sm9Wrapped    []byte
+	block         cipher.Block
+	gcm           cipher.AEAD
 	roots, inters *smx509.CertPool
-	leaf       *smx509.Certificate
+	leaf          *smx509.Certificate
 }
 
 var c20UID = []byte("alice@verif")
